@@ -315,6 +315,8 @@ def run(rep):
     rep.coverage['rule_shapes'] = c04shapes.stage(rep, tools, W)
     import c04stdin; rep.coverage['stdin_delivery_faults'] = c04stdin.stage(rep, tools, W)     # the MDA contract under every failure of the delivery path
     rep.coverage['stdin_unmatched'] = c04stdin.unmatched_witness(rep, tools)                 # F27: an unmatched stdin message is dropped with exit 0
+    import isolation; rep.coverage['isolation'] = isolation.stage(rep, tools, 'C04')     # nothing leaks from one message / maildir / rule into the next (tools/isolation.py)
+    import mdshapes; rep.coverage['maildir_shapes'] = mdshapes.stage_real(rep, tools, rep.tier)   # maildirs that are not complete maildirs next to healthy ones
     vlib.lean_conclude(rep)
     kinds = {}
     for r in results:
@@ -342,6 +344,9 @@ def run(rep):
 
 
 def replay(rep, path):
+    import isolation
+    if isolation.replay_file(rep, path):
+        return
     import json
     j = json.load(open(path))
     print(json.dumps(j, indent=1)[:3000])
